@@ -210,5 +210,19 @@ theorem sortS_map_prefix (p : Str) (l : List Str) : sortS (l.map (p ++ ·)) = (s
 theorem nodup_map_sortBy (key : α → Str) (f : α → β) (l : List α) (h : (l.map f).Nodup) : ((sortBy key l).map f).Nodup :=
   ((sortBy_perm key l).map f).nodup_iff.mpr h
 
+/-! wrappers for dictionaries -/
+theorem mem_sortKV {γ : Type} (l : List (Str × γ)) (x : Str × γ) : x ∈ sortKV l ↔ x ∈ l := mem_sortBy _ l x
+theorem mem_sortS (l : List Str) (x : Str) : x ∈ sortS l ↔ x ∈ l := mem_sortBy _ l x
+theorem sortKV_perm {γ : Type} (l : List (Str × γ)) : (sortKV l).Perm l := sortBy_perm _ l
+theorem sortS_perm (l : List Str) : (sortS l).Perm l := sortBy_perm _ l
+theorem nodup_keys_sortKV {γ : Type} (l : List (Str × γ)) (h : (l.map (·.1)).Nodup) : ((sortKV l).map (·.1)).Nodup :=
+  nodup_map_sortBy _ _ l h
+theorem sortKV_map_same {γ δ : Type} (f : Str × γ → Str × δ) (hf : ∀ a, (f a).1 = a.1) (l : List (Str × γ)) :
+    sortKV (l.map f) = (sortKV l).map f := by
+  unfold sortKV
+  exact sortBy_map_same (fun x : Str × γ => x.1) (fun x : Str × δ => x.1) f hf l
+theorem sortKV_idem {γ : Type} (l : List (Str × γ)) : sortKV (sortKV l) = sortKV l := sortBy_idem _ l
+theorem sortKV_nil {γ : Type} : sortKV ([] : List (Str × γ)) = [] := rfl
+
 end Ini
 end PM
